@@ -73,7 +73,7 @@ func checkC02(c *Ctx, r *Report) {
 	}
 	var accept []*ssa.Return
 	for _, b := range fn.Blocks {
-		if ret, ok := b.Instrs[len(b.Instrs)-1].(*ssa.Return); ok && isNilConst(ret.Results[2]) {
+		if ret, ok := b.Instrs[len(b.Instrs)-1].(*ssa.Return); ok && isNilConst(retVals(ret)[2]) {
 			accept = append(accept, ret)
 		}
 	}
@@ -108,7 +108,7 @@ func checkC02(c *Ctx, r *Report) {
 	}
 	checkInventory(r, p, ps, "sm2.SignHashed", p.InstrPos(ret), reqs, draw)
 	// values
-	gotR, gotS := normText(ps.S(ret.Results[0])), normText(ps.S(ret.Results[1]))
+	gotR, gotS := normText(ps.S(retVals(ret)[0])), normText(ps.S(retVals(ret)[1]))
 	wantR := []string{xf("ensure32Bytes", RV)}
 	wantS := []string{xf("ensure32Bytes", SV)}
 	r.Check(inList(gotR, wantR), "SIGNATURE-EXPRESSION", "sm2.SignHashed r", p.InstrPos(ret), "returned r is "+gotR+"; standard: pad32((x1 + e) mod n)")
@@ -121,7 +121,7 @@ func checkC02(c *Ctx, r *Report) {
 		return retLenSummary(p, c2, 0, call2, en, 0)
 	}
 	for i, nm := range []string{"r", "s"} {
-		ls, ok := env.Len(ret.Results[i])
+		ls, ok := env.Len(retVals(ret)[i])
 		r.Check(ok && len(ls) == 1 && ls[0].IsConst() && ls[0].C == 32, "L-RET", "sm2.SignHashed "+nm+" is 32 bytes", p.InstrPos(ret), fmt.Sprintf("length set %v", linStrs(ls)))
 	}
 	// draw width
@@ -157,7 +157,7 @@ func c12TestPrivateKey(r *Report, p *Prog, f *Folder) {
 			continue
 		}
 		r.Count("testprivatekey_returns", 1)
-		c, isC := ret.Results[0].(*ssa.Const)
+		c, isC := retVals(ret)[0].(*ssa.Const)
 		if !isC || c.Value == nil || c.Value.ExactString() != "0" {
 			continue
 		}
@@ -190,7 +190,7 @@ func c03ScalarDecoderOnly(r *Report, p *Prog, f *Folder) {
 	}
 	for _, b := range fn.Blocks {
 		ret, ok := b.Instrs[len(b.Instrs)-1].(*ssa.Return)
-		if !ok || !isNilConst(ret.Results[1]) {
+		if !ok || !isNilConst(retVals(ret)[1]) {
 			continue
 		}
 		ps := newPathSym(p, fn, f)
